@@ -185,9 +185,17 @@ def anchors(P):
         raise AnchorMissing("runtime printers (callers of print_to_json_string taking &OperationDefinition / &FragmentDefinition): %s / %s"
                             % (sorted(ops), sorted(frs)))
     A.op_rt, A.fr_rt = P.fns[ops.pop()], P.fns[frs.pop()]
-    common = P.callees_of(A.op_rt)[0] & P.callees_of(A.fr_rt)[0]
-    cl = [P.fns[c] for c in common if P.fns[c].crate == A.op_rt.crate and _param_of(P.fns[c], SELSET) is not None
-          and "str" in (P.fns[c].sig_output or "")]
+    # what both printers call, directly or through helpers they share (statically resolved calls, seen by virtual inlining)
+    def calls_of(f):
+        return {call_name(n) for n in inlined(P, f).walk() if n.get("k") in ("Call", "MethodCall")} & set(P.fns)
+    def closures(common):
+        return [P.fns[c] for c in common if P.fns[c].crate == A.op_rt.crate and _param_of(P.fns[c], SELSET) is not None
+                and "str" in (P.fns[c].sig_output or "")]
+    cl = closures(P.callees_of(A.op_rt)[0] & P.callees_of(A.fr_rt)[0]) or closures(calls_of(A.op_rt) & calls_of(A.fr_rt))
+    # a thin wrapper around the closure function (same signature role) is not a second candidate: keep the innermost
+    if len(cl) > 1:
+        inner = [c for c in cl if not any(d.path in P.callees_of(c)[0] for d in cl if d is not c)]
+        cl = inner or cl
     if len(cl) != 1:
         raise AnchorMissing("fragment closure (fn of %s called by both runtime printers, &SelectionSet -> names): %s" % (A.op_rt.crate, [c.path for c in cl]))
     A.closure = cl[0]
@@ -579,6 +587,7 @@ def pushed_first(rt, pv, ext, me, is_cl):
 
 def r12d(P, R):
     """single source: runtime documents are built only through the two runtime printers"""
+    from templates import LOSSY_OR_REORDERING as LOSSY
     A = anchors(P)
     op_rt, fr_rt, C = A.op_rt, A.fr_rt, A.closure
     R.check("R12-d", "json-callers", not A.others,
@@ -659,8 +668,9 @@ def r12d(P, R):
                            "definition must come first" % rt.path, loc=rt.loc())
             else:
                 R.undecided("R12-d", "order:" + rt.name, "the two sides of `chain` in %s are not recognised as definition / closure" % rt.path, loc=rt.loc())
-        # the fragment itself appears exactly once: its own name takes part in computing the rest of the document
-        if role == "fragment":
+        # the expression that turns the closure into the rest of the document: the method chain on the call, and in-place
+        # operations on the local it is bound to
+        if True:
             tops = []
             for i in fcalls:
                 j = i
@@ -675,6 +685,21 @@ def r12d(P, R):
                     lid = acc[p][0]["pat"]["local"]
                     tops.extend(n for n in rt.walk() if n.get("k") == "MethodCall" and strip(n["recv"]).get("k") == "Path"
                                 and strip(n["recv"]).get("local") == lid)
+        if role == "operation":
+            # an operation's document keeps every fragment of the closure: nothing of the operation but its selection set may
+            # take part in a narrowing step (fragment names and operation names are different namespaces)
+            narrowing = [x for t in tops for x in subnodes(t) if x.get("k") == "MethodCall" and x["method"] in LOSSY and x["args"]]
+            bad = sorted({"%s by OperationDefinition.%s" % (x["method"], a[2]) for x in narrowing for arg in x["args"] for a in pv.atoms(arg)
+                          if a[0] == "field" and a[1] == OPDEF and a[2] not in allowed})
+            if bad:
+                R.violated("R12-d", "closure-filter:" + rt.name,
+                           "%s narrows the fragment closure of an operation with %s: a fragment whose name equals the operation's own %s is left "
+                           "out of the operation's document although it is spread (fragment names and operation names are separate namespaces; "
+                           "only a fragment's document excludes the definition itself)" % (rt.path, bad, "name"), loc=rt.loc())
+            else:
+                R.holds("R12-d", "closure-filter:" + rt.name, "nothing of the operation narrows its fragment closure", loc=rt.loc())
+        # the fragment itself appears exactly once: its own name takes part in computing the rest of the document
+        if role == "fragment":
             ok = any(has_field(pv.atoms(t), FRDEF, "name") for t in tops)
             if ok:
                 R.holds("R12-d", "self-filter", "the fragment itself is filtered out of its own closure (appears exactly once)", loc=rt.loc())
